@@ -24,4 +24,5 @@ pub use scylla_cql_core::_macro_internal;
 
 // Verification hook (inert unless built by `cargo kani`, which sets --cfg kani).
 #[cfg(kani)]
+#[rustfmt::skip] // the module file only exists in the verification scratch tree
 mod verif_kani;
